@@ -10,11 +10,12 @@ def parseTy : String → Option ITy
   | "i32" => some ITy.i32 | "u32" => some ITy.u32 | "i64" => some ITy.i64 | "u64" => some ITy.u64 | _ => none
 
 /-- the values can be stored in a container of element type `t` and of the requested kind
-    (`std::array` ranks 1..6 and `static_vector` capacity 8 are what the harness instantiates) -/
+    (`std::array` ranks 1..6, run-time tuples of rank 1..3 and `static_vector` capacity 8 are what the harness instantiates) -/
 def storable (t : ITy) (kind : String) (v : List Nat) : Bool :=
   v.all (fun x => decide (t.Fits x)) &&
     (match kind with
-     | "vec" => true | "sv" => v.length ≤ 8 | "arr" => 1 ≤ v.length && v.length ≤ 6 | _ => false)
+     | "vec" => true | "sv" => v.length ≤ 8 | "arr" => 1 ≤ v.length && v.length ≤ 6
+     | "tup" => 1 ≤ v.length && v.length ≤ 3 | _ => false)
 
 def fmtOpt : Option (List Nat) → String
   | some l => s!"ok {fmtNats l}"
